@@ -9,7 +9,8 @@ WITNESS = {}        # family id -> family object (see witness.py)
 
 
 class Violation:
-    def __init__(self, rule, key, where, msg, detail=None):
+    def __init__(self, rule, key, where, msg, detail=None, tag=None):
+        self.tag = tag
         self.rule = rule
         self.key = '%s/%s' % (rule, key)      # never contains line numbers
         self.where = where                     # file:line for humans
@@ -26,11 +27,13 @@ class Result:
         self.violations = []
         self.notes = []
 
-    def inst(self, s):
+    def inst(self, s, tag=None):
         self.instances.append(s)
+        self.inst_tags = getattr(self, 'inst_tags', [])
+        self.inst_tags.append(tag)
 
-    def viol(self, rule, key, where, msg, detail=None):
-        self.violations.append(Violation(rule, key, where, msg, detail))
+    def viol(self, rule, key, where, msg, detail=None, tag=None):
+        self.violations.append(Violation(rule, key, where, msg, detail, tag))
 
 
 class Rule:
